@@ -81,6 +81,27 @@ class World:
     pass
 
 
+class Bag(Core.Agent):
+    """An agent class with its own notion of length (number of carried items): always 0 here."""
+
+    def __len__(self):
+        return 0
+
+
+def make_agent(key, model):
+    """Pool agents by key: 'e' is a nested (empty) environment used as an agent, 'g' a Bag, 'h' an agent whose CLASS
+    carries a class-level PositionComponent (the herd's home) - none of which changes where the agent itself is."""
+    if key == 'e':
+        return Core.Environment(model, 'e')
+    if key == 'g':
+        return Bag('g', model)
+    if key == 'h':
+        Homed = type('Homed', (Core.Agent,), {})
+        Homed.add_class_component(PC(Homed, model, 1, 1, 1))
+        return Homed('h', model)
+    return Core.Agent(key, model)
+
+
 class Harness:
     def __init__(self, kind, dims, wrap, agents=('a',), rich=True, step=0.5):
         self.kind, self.dims, self.wrap = kind, list(dims), bool(wrap_flag(wrap))
@@ -168,7 +189,7 @@ class Harness:
         w = World()
         w.model = new_model(seed=1)
         w.env = w.model.environment = mk_world(w.model, self.kind, self.dims, self.wrap_arg)
-        w.agents = {k: Core.Agent(k, w.model) for k in self.agents}
+        w.agents = {k: make_agent(k, w.model) for k in self.agents}
         w.pos = {k: None for k in self.agents}      # reference positions as Fractions, None = not resident
         w.last = None
         return w
@@ -454,6 +475,11 @@ def run(ctx):
     items = [(c, 60) for c in configs(ctx.tier)]
     items += [(c, 3 if ctx.tier == 'quick' else 4) for c in two_agent_configs(ctx.tier)]
     items += [(c, 60) for c in odd_flag_configs()]
+    # unusual agents: a nested environment, an agent class with its own __len__, a class-level position component
+    for key in ('e', 'g', 'h'):
+        for wrap in (False, True):
+            items += [(('grid', [3, 2], wrap, [key], True, 1), 60), (('space', [1.5, 1, 0], wrap, [key], True, 0.5), 60),
+                      (('discrete', [3, 0, 3], wrap, [key], True, 1), 60)]
     if ctx.small:      # reduced exploration: seven shapes, one agent
         keep = ([3, 3, 0], [0, 3, 3], [3, 3, 3], [1.5, 1.5, 0], [0, 1.5, 1.5], [3], [3, 2])
         items = [it for it in items if len(it[0][3]) == 1 and list(it[0][1]) in keep]
